@@ -117,7 +117,7 @@ Proof.
   - pose (L := OL true). change (T L (rm_main o) (fun _ => True)). unfold rm_main.
     destruct (ro_args o) as [|pattern rest]; [apply (T_seq L); [apply (T_call_unit L); oacc|oret L]|].
     apply (T_seq L); [|oret L].
-    apply (safe_scan_trash_dirs L (order_scan true) (rm_handle pattern) (fun _ => True) (fun _ => True)); auto.
+    apply (safe_scan_trash_dirs L (order_scan true) (rm_handle pattern) (fun _ => True) (fun _ => True)); try apply select_events_true; auto.
     intros s ev _ _. destruct ev; simpl; try oret L.
     eapply (T_bind L); [apply (safe_list_trashinfo L (order_scan true))|]. intros infos _.
     apply (T_for_each L). intros p _. unfold rm_one_info.
@@ -185,10 +185,10 @@ Proof.
     apply (T_seq L); [|oret L].
     destruct (match eo_interactive o with Some b => b | None => tty end).
     + eapply (T_bind L).
-      * apply (safe_select_trash_dirs L (order_scan false) (fun acc ev => Ret (acc ++ [ev])) (fun _ => True) (fun _ => True)); auto;
+      * apply (safe_select_trash_dirs L (order_scan false) (fun acc ev => Ret (acc ++ [ev])) (fun _ => True) (fun _ => True)); try apply select_events_true; auto;
         try (intros s ev _ _; oret L).
       * intros evs _. eapply (T_bind L); [apply (T_call_str L); oacc|]. intros reply _.
         destruct (parse_reply reply); [|oret L]. apply (T_for_each L). intros ev _. apply Hh.
-    + apply (safe_select_trash_dirs L (order_scan false) (empty_handle o) (fun _ => True) (fun _ => True)); auto;
+    + apply (safe_select_trash_dirs L (order_scan false) (empty_handle o) (fun _ => True) (fun _ => True)); try apply select_events_true; auto;
       try (intros s ev _ _; apply Hh).
 Qed.
